@@ -323,7 +323,8 @@ class Lab:
         if self.parallel and len(misses) > 1:
             order = tuple(e[1] for e in self.log if e[0] == "done")
             self.ctx.count(f"{p}.parallel_requests")
-            self.ctx.descriptors.setdefault("completion-order:" + ",".join(order), True)
+            self.ctx.observe("parallel download completion order (vs request order)",
+                             ",".join(order) + " | request " + ",".join(base_of(k) for k in misses))
         # ---- size bound, enlargement
         req_size = sum(SIZES[base_of(k)[-1]] for k in set(keys))
         if req_size > limit_before:
@@ -368,7 +369,8 @@ class Lab:
             kept_ticks = {lu[k] for k in K}
             if top in kept_ticks:
                 self.unique = False
-            self.ctx.descriptors.setdefault("eviction-set:" + ",".join(sorted(self.model[e]["key"] for e in E)), True)
+            self.ctx.observe("eviction (evicted | kept)", ",".join(sorted(self.model[e]["key"] for e in E)) + " | " +
+                             ",".join(sorted(self.model[k]["key"] for k in K)))
         for e in E:
             del self.model[e]
         self.check_invariants("get " + ",".join(keys))
